@@ -3,6 +3,7 @@ CONSTANTS
   Threads = {t1, t2, t3}
   Socks = {s1, s2}
   AtomicCheck = TRUE
+  DeadBind = TRUE
   MaxDeliver = 2
 INVARIANT NoStuck
 INVARIANT ResultTyped
